@@ -40,7 +40,7 @@ pub fn pieces_for(fe: &Fe, path: &Path, l: usize) -> Vec<P> {
         }
         return vec![p(l, path.kind)];
     }
-    if path.unit && l > 0 { (0..l / fe.gran).map(|_| P { len: fe.gran, kind: path.kind, single: fe.singles }).collect() } else { vec![p(l, path.kind)] }
+    if path.unit && l > 0 { (0..l / fe.gran).map(|_| P { len: fe.gran, kind: path.kind, single: fe.singles, closure: 0 }).collect() } else { vec![p(l, path.kind)] }
 }
 
 const FAMILIES: [&str; 13] = ["cbc", "pcbc", "ige", "cfb", "cfb8", "ofb", "ctr32be", "ctr32le", "ctr64be", "ctr64le", "ctr128be", "ctr128le", "belt"];
